@@ -1,16 +1,20 @@
 #!/bin/sh
-# tools/wave.sh <N>: validate every finished, not yet kept deliverable of wave N
-# (/tmp/mut/wN-Cxx/out/{1,2}) and run the check of its target property against it.
+# tools/wave.sh <N> [<dirN>]: validate every finished, not yet kept deliverable of wave N
+# (/tmp/mut/w<dirN>-Cxx/out/{1,2}; dirN defaults to N) - six validations at a time, each in
+# a scratch worktree of its own - and run the check of its target property against it.
 cd "$(dirname "$0")/.."
 N=$1
-ids=""
+D=${2:-$1}
+todo=""
 for p in C01 C02 C03 C04 C05 C06 C07 C08 C09 C10 C11 C12 C14 C15 C16 C18 C19 C20; do
   for n in 1 2; do
-    d=/tmp/mut/w$N-$p/out/$n
+    d=/tmp/mut/w$D-$p/out/$n
     if [ -f $d/notes.md ] && [ -f $d/patch.diff ] && [ -f $d/demo_test.go ] && [ ! -d seeded/S-$p-w$N-$n ]; then
-      v=$(python3 tools/seeded.py validate $d --keep-as S-$p-w$N-$n --property $p 2>&1 | grep -c '"valid": true')
-      if [ "$v" = "1" ]; then ids="$ids,S-$p-w$N-$n"; else echo "INVALID: $d"; fi
+      todo="$todo $p:$n"
     fi
   done
 done
+echo $todo | tr ' ' '\n' | xargs -P 6 -I{} sh -c 'p=${1%%:*}; n=${1##*:}; d=/tmp/mut/w'$D'-$p/out/$n; v=$(python3 tools/seeded.py validate $d --keep-as S-$p-w'$N'-$n --property $p 2>&1 | grep -c "\"valid\": true"); [ "$v" = "1" ] || echo "INVALID: $d"' _ {}
+ids=""
+for t in $todo; do p=${t%%:*}; n=${t##*:}; [ -d seeded/S-$p-w$N-$n ] && ids="$ids,S-$p-w$N-$n"; done
 [ -n "$ids" ] && python3 tools/seeded.py matrix --only ${ids#,} 2>&1 | grep -v WARNING | cut -c1-230
